@@ -294,3 +294,9 @@ func (s *San) CurrentValue(h *ssa.Phi, b *ssa.BasicBlock) ssa.Value {
 	}
 	return cur
 }
+
+// IsNil: v is the constant nil.
+func IsNil(v ssa.Value) bool {
+	c, ok := v.(*ssa.Const)
+	return ok && c.Value == nil && c.IsNil()
+}
